@@ -390,10 +390,12 @@ func Run(tp *tape.Tape, env *engine.Env) *engine.Outcome {
 	ntasks := len(m.ws.Files) + 6
 
 	// baseline: one worker, sorted walks, canonical listing order
+	// (even with one worker the order in which protocompile's task goroutines obtain its semaphore
+	// is the Go runtime's choice: the baseline's schedule is not part of the trace hash, its outputs are)
 	thread.SetParallelism(1)
-	s.FIFO = true
+	s.FIFO, s.Unhashed = true, true
 	base := m.run(m.prop == "C02")
-	s.FIFO = false
+	s.FIFO, s.Unhashed = false, false
 	arrivalBase := strings.Join(m.arrival, ",")
 	distinctArrivals := map[string]struct{}{arrivalBase: {}}
 	switch mode {
@@ -434,9 +436,17 @@ func Run(tp *tape.Tape, env *engine.Env) *engine.Outcome {
 				m.faultBudget = 1 + tp.Draw("fbudget", 2)
 			}
 		}
+		if ambient {
+			// fewer workers than compile tasks: which tasks hold protocompile's semaphore is the Go
+			// runtime's choice, so the parked set is not reproducible. Leave this execution to the
+			// runtime entirely (no draws, not part of the trace hash); its OUTPUTS are still checked.
+			m.faults, m.cancelAt = false, 0
+			s.FIFO, s.Unhashed = true, true
+		}
 		fired := totalFired(s)
 		res := m.run(m.prop == "C02")
 		fired = totalFired(s) - fired
+		s.FIFO, s.Unhashed = false, false
 		site := "perturbed"
 		if ambient {
 			site = "ambient"
@@ -448,6 +458,14 @@ func Run(tp *tape.Tape, env *engine.Env) *engine.Outcome {
 		case "planted":
 			m.checkPlanted(res, site)
 		case "fault":
+			if ambient {
+				if res.err != nil {
+					m.violate("schedule-independence", site, "build failed without any fault: %v", res.err)
+				} else {
+					m.checkImage(res.image, ref, site)
+				}
+				continue
+			}
 			// a fault may hit a file that turns out not to be needed; but an image that is returned must be right
 			if res.err == nil {
 				m.checkImage(res.image, ref, site)
